@@ -1,5 +1,6 @@
 CONFIG = dict(
-    coqfiles=["Props/C09.v"],
+    coqfiles=["Props/C09.v", "Props/C09S.v"],
+    sub=["C09S"],
     n_quick=16000, n_thorough=1000000, workers_quick=8,
     rule="92% structured: digest of one of the 8 digest functions over content of 0-33 bytes; the script is that content (valid) or one of: truncated, "
          "trailing data, one byte changed, digest states another size, digest hash changed, empty; cut into chunks (whole / single bytes / 1-3 / random, "
@@ -11,6 +12,6 @@ CONFIG = dict(
     modelled=["the digest's hash function is a parameter H of the model; per case it is the table of hashes that Go computed (crypto/*, blake3, sha256tree called directly by the harness) for the contents occurring in the case; any other content is taken to hash to something else (no collisions)",
               "io.ReadFull, io.Copy (32 KiB buffer), io.CopyN(io.Discard) (8 KiB reads through io.LimitedReader) and bytes.Buffer.Read are modelled by hand in Buffer/Source.v, Convert.v",
               "loops that end only when the source says so take fuel; out-of-fuel is an explicit error that is never a completion",
-              "ToProto beyond ToByteSlice (protobuf unmarshalling) and CloneStream/WithTask (C15) are not modelled",
+              "ToProto beyond ToByteSlice (protobuf unmarshalling) and WithTask (C15) are not modelled; CloneStream is covered by the sub-check C09S (harness/c09s.go, Run/R09S.v): a clone is held to the model of the buffer itself, with the sibling discarded before or after the consuming clone registered; its cases are folded into this check",
               "error messages are not compared, only gRPC codes; io.EOF and io.ErrUnexpectedEOF are distinguished"],
 )
